@@ -111,7 +111,7 @@ def gen_cases(tier, seed):
     for i in range(3 if tier == 'quick' else 48):
         yield gen_one(random.Random(f'C03/scale/{seed}/{tier}/{i}'), tier,
                       scale=True)
-    n = 5000 if tier == "quick" else 16 * 8000
+    n = 8000 if tier == "quick" else 16 * 8000
     for i in range(n):
         yield gen_one(random.Random(f'C03/{seed}/{tier}/{i}'), tier)
 
